@@ -202,6 +202,12 @@ def jobs(tier, seed):
             js.append(Job("v1pad.%s.%s" % ("x".join(map(str, sh)), proto), "props.c08:h_v1",
                           {"shape": sh, "form": "list", "protocol": proto, "limits": False, "comma_padding": True},
                           reach=["C08.v1-meaning(AND of OR, -/~ negate, @ optional)"], min_paths=10, cost=4 * 6 ** sum(sh), validate=40, closure=False))
+    # the same tag plain and negated inside one group ("@a,-@a" is always true; "-@a,@b,@a" likewise)
+    for sh, names in (([2], ["a", "a"]), ([3], ["a", "b.c", "a"]), ([2, 1], ["a", "a", "b.c"])):
+        for form in ("list", "string"):
+            js.append(Job("v1same.%s.%s.v1" % ("x".join(map(str, sh)), form), "props.c08:h_v1",
+                          {"shape": sh, "form": form, "protocol": "v1", "limits": False, "names": names, "prefixes": [0, 2, 5]},
+                          reach=["C08.v1-meaning(AND of OR, -/~ negate, @ optional)"], min_paths=8, cost=3 ** sum(sh) * 10, validate=40, closure=False))
     # a later group whose tags all occur in an earlier group still narrows the selection
     for form in ("list", "string"):
         js.append(Job("v1rep.2x1.%s.v1" % form, "props.c08:h_v1",
